@@ -1,6 +1,8 @@
 import NA.Proofs.F1Names
 import NA.Proofs.F1Lines
 import NA.Proofs.F1Equalize
+import NA.Proofs.F1Converge
+import NA.Proofs.F1EndToEnd
 /-!
 # F1 — the ASA diff engine on the fragment {access-group, access-list + object-group network, route}
 
@@ -113,7 +115,98 @@ theorem tail_acl_before_group (e : Env) (st : St) (managed : List Nat) :
     ∃ cs, (deleteUnused e st managed).out = st.out ++ cs ∧ cs.Pairwise (TailRel e) :=
   deleteUnused_order e st managed
 
-/-! ## 6. F-C01b: idempotence in one run is false (kernel-evaluated on model + strict device) -/
+/-! ## 6. Convergence on the strict device (`NA.AsaDev`), as far as it is proved
+
+`Sem e st d` (NA/Proofs/F1Sem.lean) relates the engine's marks to the device: original groups still exist,
+a group that is not `needed` has its original members, a `ready` target group carries the name of an
+existing device group with the target's members that nothing edits any more (`Frozen`), a target group
+that is not `ready` carries its generated name, which does not exist yet.
+`GStep`/`LStep`: the appended commands are accepted by the strict device (`exec d cs = some d'`), `Sem`
+holds afterwards, frozen groups keep their members, other access lists, bindings, routes are unchanged. -/
+
+/-- `Sem` holds when `diffConfig` starts. -/
+theorem sem_initial (a b : Config) (sc : Scripts) (st : St) (managed : List Nat)
+    (h : checkInterfaces ⟨a, b, sc⟩ {} = some (st, managed)) :
+    Sem ⟨a, b, sc⟩ (generateNames ⟨a, b, sc⟩ st) (ofConfig a) := sem_init a b sc st managed h
+
+/-- `group_equalize_converges` on the strict device: the commands of the in-place edit (with the `exit` /
+`object-group` lines around them) are accepted; afterwards the device group holds exactly the target's
+members; all other groups, access lists, bindings and routes are unchanged. -/
+theorem group_equalize_converges_dev (st : St) (d : Dev) (aN : Name) (la lb : List String) (rs : List Range)
+    (hn : aN ≠ "") (hm : ModeRel st d) (hg : hasGroup d aN = true)
+    (hv : scriptOK la lb rs 0 0 = true) (hna : la.Nodup) (hnb : lb.Nodup) (hcur : (membersOf d aN).Perm la)
+    (hdisj : ∀ m ∈ inssOf lb rs, m ∉ delsOf la rs) :
+    ∃ cs d', (editMembers st aN la lb rs).out = st.out ++ cs ∧ exec d cs = some d' ∧
+      ModeRel (editMembers st aN la lb rs) d' ∧ (membersOf d' aN).Perm lb ∧ OnlyGroup d d' aN :=
+  editMembers_converges st d aN la lb rs hn hm hg hv hna hnb hcur hdisj
+
+/-- `equalizedGroups` (all branches) preserves `Sem`; if it answers `true`, the target group is `ready`
+under the device group's name (hence that group has the target's members and is frozen). -/
+theorem equalizedGroups_sound (e : Env) (hw : WF e) (st : St) (d : Dev) (h : Sem e st d) (aN bN : Name)
+    (ha : aN ∈ D0 e) (hb : bN ∈ BNames e) :
+    ∃ d', GStep e st d (equalizedGroups e st aN bN).1 d' ∧
+      ((equalizedGroups e st aN bN).2 = true →
+        bN ∈ (equalizedGroups e st aN bN).1.gReady ∧ (equalizedGroups e st aN bN).1.gNameOf bN = aN) :=
+  equalizedGroups_gstep e hw st d h aN bN ha hb
+
+/-- Transfer of a whole group (`addCmds`): accepted, `Sem` preserved, the group is `ready` afterwards. -/
+theorem transferGroup_sound (e : Env) (hw : WF e) (st : St) (d : Dev) (h : Sem e st d) (bN : Name) (hb : bN ∈ BNames e) :
+    ∃ d', GStep e st d (transferGroup e st bN) d' ∧ bN ∈ (transferGroup e st bN).gReady ∧
+      (transferGroup e st bN).gName = st.gName := transferGroup_gstep e hw st d h bN hb
+
+/-- **`asa_acl_pair_converges`** — `diffASAACLs` for one pair (device ACL `aN`, target ACL `bN`), from ANY engine
+state satisfying `Sem` (arbitrary sharing of groups with lines and access lists handled before): every
+emitted command is accepted by the strict device (referenced groups exist, no duplicate entry, every
+`line N` hits the intended line, member commands inside their sub-mode); afterwards the device ACL has the
+target's length and position by position the target's text up to group names, every referenced group
+existing with exactly the target group's members and frozen.  `_partial`: the decidable hypothesis
+`planCheck … = "hyp:ok"` (some kept line keeps its references — complement of F-C08a; printed texts
+modulo log pairwise different per side) is evaluated and counted by the driver on every generated run. -/
+theorem asa_acl_pair_converges_partial (e : Env) (hw : WF e) (hA : RefsClosedA e) (hB : RefsClosedB e) (st : St) (d : Dev)
+    (h : Sem e st d) (aN bN : Name) (rs : List Range)
+    (hal : linesOf d aN = (e.aLines aN).map resolveA)
+    (hscript : scriptOK ((e.aLines aN).map (·.body)) ((e.bLines bN).map (·.body)) rs 0 0 = true)
+    (hcheck : planCheck e st aN bN rs = "hyp:ok")
+    (hlenA : RefsMatchBody (e.aLines aN)) (hlenB : RefsMatchBody (e.bLines bN)) :
+    ∃ d', LStep e st d (diffASAACLs e st aN bN rs) d' aN ∧
+      (linesOf d' aN).length = (e.bLines bN).length ∧
+      ∀ p ∈ (linesOf d' aN).zip (e.bLines bN), LineOK e (diffASAACLs e st aN bN rs) d' p.1 p.2 :=
+  acl_pair_converges_checked e hw hA hB st d h aN bN rs hal hscript hcheck hlenA hlenB
+
+/-- **`asa_F1_converges_partial`** — END TO END for the class K1: device and target bind one access list at the
+same (direction, interface); no routes on either side; the passed script of the pair keeps a line
+(incremental update); all static well-formedness conditions and the counted run hypothesis hold — one
+decidable predicate `k1Check a b sc`, evaluated by the driver on every generated case.
+Then the WHOLE script printed by the engine — group edits and transfers, line operations with moves,
+and the clean-up of `deleteUnused` (`exit`, `clear configure access-list`, `no object-group`) — is
+accepted by the strict device started on the device configuration; bindings and routes are unchanged;
+the bound access list has the target's length and, position by position, the target's text up to group
+names, every referenced group existing with exactly the target group's members. -/
+theorem asa_F1_converges_partial (a b : Config) (sc : Scripts) (hc : k1Check a b sc = true) :
+    ∃ aAcl bAcl script d', a.binds.map (·.acl) = [aAcl] ∧ b.binds.map (·.acl) = [bAcl] ∧
+      (engine a b sc).map (·.script) = some script ∧ exec (ofConfig a) script = some d' ∧
+      d'.binds = (ofConfig a).binds ∧ d'.routes = (ofConfig a).routes ∧
+      (linesOf d' aAcl).length = ((⟨a, b, sc⟩ : Env).bLines bAcl).length ∧
+      ∀ p ∈ (linesOf d' aAcl).zip ((⟨a, b, sc⟩ : Env).bLines bAcl), LineEquiv ⟨a, b, sc⟩ d' p.1 p.2 :=
+  k1_converges_checked a b sc hc
+
+/-- `deleteUnused` on the strict device when no access-group command is pending: the pending access lists
+(existing, unbound) are cleared, then the pending groups (existing, referenced by no access list that
+stays) are removed; nothing else changes. -/
+theorem deleteUnused_accepted (e : Env) (st : St) (managed : List Nat) (d : Dev) (hm : ModeRel st d)
+    (hb : (duPending e st managed).1.binds = [])
+    (hA : (duPending e st managed).1.acls.Nodup) (hG : (duPending e st managed).1.grps.Nodup)
+    (hAok : ∀ m ∈ (duPending e st managed).1.acls, hasAcl d m = true ∧ aclBound d m = false)
+    (hGok : ∀ g ∈ (duPending e st managed).1.grps, hasGroup d g = true ∧
+      ∀ p ∈ d.acls, p.1 ∉ (duPending e st managed).1.acls → ∀ l ∈ p.2, g ∉ l.names) :
+    ∃ tail d', (deleteUnused e st managed).out = st.out ++ tail ∧ exec d tail = some d' ∧
+      d'.acls = d.acls.filter (fun p => !(duPending e st managed).1.acls.contains p.1) ∧
+      (∀ g, g ∉ (duPending e st managed).1.grps → d'.groups.lookup g = d.groups.lookup g ∧
+        d'.groups.any (·.1 == g) = d.groups.any (·.1 == g)) ∧
+      d'.binds = d.binds ∧ d'.routes = d.routes ∧ d'.intfs = d.intfs :=
+  deleteUnused_exec_nobinds e st managed d hm hb hA hG hAok hGok
+
+/-! ## 7. F-C01b: idempotence in one run is false (kernel-evaluated on model + strict device) -/
 
 def exLine (proto port g : String) : Line :=
   ⟨["permit " ++ proto ++ " object-group ", " any4 eq " ++ port], ["permit " ++ proto ++ " object-group ", " any4 eq " ++ port], [g]⟩
@@ -152,10 +245,39 @@ theorem idempotent_counterexample :
       some (true, ["object-group g0-DRC-7"], some ["no object-group network g0-DRC-7"]) := by
   constructor <;> decide
 
+/-! ### Non-vacuity of `asa_acl_pair_converges_partial`: the F-C01b configuration satisfies every hypothesis -/
+
+def exEnv : Env := ⟨exDev, exTgt, exScripts⟩
+def exInit : St × List Nat := (checkInterfaces exEnv {}).getD default
+
+theorem exInit_ok : checkInterfaces exEnv {} = some (exInit.1, exInit.2) := by
+  have h : (checkInterfaces exEnv {}).isSome = true := by decide
+  unfold exInit
+  cases hc : checkInterfaces exEnv {} with
+  | none => rw [hc] at h; exact absurd h (by decide)
+  | some p => rfl
+
+example : ∃ d', LStep exEnv (generateNames exEnv exInit.1) (ofConfig exDev)
+      (diffASAACLs exEnv (generateNames exEnv exInit.1) "inside_in" "inside_in" [⟨0, 0, 0, 1⟩, ⟨0, 1, 1, 2⟩]) d' "inside_in" ∧
+    (linesOf d' "inside_in").length = (exEnv.bLines "inside_in").length ∧
+    ∀ p ∈ (linesOf d' "inside_in").zip (exEnv.bLines "inside_in"),
+      LineOK exEnv (diffASAACLs exEnv (generateNames exEnv exInit.1) "inside_in" "inside_in" [⟨0, 0, 0, 1⟩, ⟨0, 1, 1, 2⟩]) d' p.1 p.2 :=
+  asa_acl_pair_converges_partial exEnv (WF.of_check (by decide)) (RefsClosedA.of_check (by decide))
+    (RefsClosedB.of_check (by decide)) _ _ (sem_initial exDev exTgt exScripts _ _ exInit_ok)
+    "inside_in" "inside_in" _ (by decide) (by decide) (by decide)
+    (RefsMatchBody.of_check (by decide)) (RefsMatchBody.of_check (by decide))
+
+/-- Non-vacuity of `asa_F1_converges_partial`: the F-C01b configuration is in class K1 and passes the check
+(its script is accepted and the result is equivalent — the left-over group of F-C01b is not excluded by
+this theorem, it only is not removed). -/
+example : k1Check exDev exTgt exScripts = true := by decide
+
 def obligations : List Lean.Name := [
   ``names_fresh, ``names_injective, ``findGroup_sound, ``findGroup_first,
   ``group_equalize_converges, ``group_edit_emits_memOps, ``group_needed_never_edited, ``group_edit_only_if_small,
   ``asa_lines_with_groups_converge, ``merged_list_projects,
-  ``objects_before_use, ``tail_acl_before_group, ``idempotent_counterexample]
+  ``objects_before_use, ``tail_acl_before_group,
+  ``sem_initial, ``group_equalize_converges_dev, ``equalizedGroups_sound, ``transferGroup_sound,
+  ``asa_acl_pair_converges_partial, ``asa_F1_converges_partial, ``deleteUnused_accepted, ``idempotent_counterexample]
 
 end NA.F1
